@@ -62,6 +62,7 @@ fn main() {
                 only_case: None,
                 variant: "native".into(),
                 fp_out: None,
+                progress: None,
                 verbose: false,
             };
             let mut i = 3;
@@ -76,6 +77,7 @@ fn main() {
                     "--only-case" => ctx.only_case = v.parse().ok(),
                     "--variant" => ctx.variant = v,
                     "--fp-out" => ctx.fp_out = Some(v),
+                    "--progress" => ctx.progress = Some(v),
                     "--verbose" => {
                         ctx.verbose = true;
                         i += 1;
